@@ -18,6 +18,8 @@ REGISTRY = {
     'C10': ('checks.tee', 'c10'),
     'C11': ('checks.lifecycle', 'c11'),
     'C12': ('checks.proc', 'c12'),
+    'C13': ('checks.manager', 'c13'),
+    'C14': ('checks.manager', 'c14'),
     'C15': ('checks.transport', 'c15'),
     'C16': ('checks.streams', 'c16'),
     'C17': ('checks.iterqueue', 'c17'),
